@@ -69,7 +69,7 @@ impl Check for IndexCheck {
         "C15"
     }
     fn budget(&self, tier: &str) -> usize {
-        if tier == "thorough" { 20_000 } else { 1200 }
+        if tier == "thorough" { 400_000 } else { 15_000 }
     }
     fn gen_case(&self, seed: u64, _idx: usize, _tier: &str, avoid: &[String]) -> Case {
         let mut rng = Rng::new(seed, "workload");
@@ -86,6 +86,17 @@ impl Check for IndexCheck {
         k.w_txn[0] = k.w_txn[0].max(8);
         if avoid.iter().any(|a| a == "index_created_after_data") {
             // the index exists before any data: put the create_index events first
+        }
+        if !avoid.iter().any(|a| a == "index_long_duplicate_runs") && rng.chance(0.05) {
+            // many nodes sharing few values: long runs of equal keys across index leaf splits
+            // 512 node records fill the node table's first page; beyond it F36 (C18) interferes
+            k.max_live_nodes = if avoid.iter().any(|a| a == "node_table_growth_with_other_allocations") { 500 } else { 900 };
+            k.max_txn_ops = 220;
+            k.n_ops = rng.range(8, 16) as usize;
+            k.n_labels = 1;
+            k.n_keys = 1;
+            k.w_top = [40, 0, 0, 8, 0, 0, 0];
+            k.w_txn = [12, 0, 0, 0, 0, 0, 20, 0, 0, 0, 0];
         }
         let mut ops = gen_history(&mut rng, &k);
         if avoid.iter().any(|a| a == "index_created_after_data") {
